@@ -101,4 +101,223 @@ theorem belt_resume (C : Cipher) (hC : C.Valid) (hbs : C.bs = 16) (st : Belt.St)
 theorem cfbbuf_state_resume (s : CfbBuf.St) :
     CfbBuf.fromState (CfbBuf.getState s).1 (CfbBuf.getState s).2 = s := rfl
 
+/-! ### resumption at the level of outputs: run a prefix, export, import into a fresh instance, run the rest -/
+
+/-- generic: if re-initialising from the exported value gives back the state, the outputs of the fresh instance on
+    the rest, appended to the outputs on the prefix, are the outputs of one uninterrupted run; final states agree. -/
+theorem resume_outputs {σ : Type} (step : σ → Bytes → Bytes × σ) (reinit : σ → σ) (s : σ) (a b : List Bytes)
+    (h : reinit (foldBlocks step s a).2 = (foldBlocks step s a).2) :
+    (foldBlocks step s a).1 ++ (foldBlocks step (reinit (foldBlocks step s a).2) b).1 = (foldBlocks step s (a ++ b)).1 ∧
+    (foldBlocks step (reinit (foldBlocks step s a).2) b).2 = (foldBlocks step s (a ++ b)).2 := by
+  rw [h, foldBlocks_append]; exact ⟨rfl, rfl⟩
+
+/-- CBC, PCBC, CFB-8, OFB (both directions): every cut point, any state. -/
+theorem cbc_enc_resume_outputs (C : Cipher) (iv : Bytes) (a b : List Bytes) :
+    (foldBlocks (Cbc.encBlock C) iv a).1 ++
+      (foldBlocks (Cbc.encBlock C) (Cbc.init C (Cbc.ivState C (foldBlocks (Cbc.encBlock C) iv a).2)) b).1
+      = (foldBlocks (Cbc.encBlock C) iv (a ++ b)).1 :=
+  (resume_outputs (Cbc.encBlock C) (fun s => Cbc.init C (Cbc.ivState C s)) iv a b rfl).1
+theorem cbc_dec_resume_outputs (C : Cipher) (iv : Bytes) (a b : List Bytes) :
+    (foldBlocks (Cbc.decBlock C) iv a).1 ++
+      (foldBlocks (Cbc.decBlock C) (Cbc.init C (Cbc.ivState C (foldBlocks (Cbc.decBlock C) iv a).2)) b).1
+      = (foldBlocks (Cbc.decBlock C) iv (a ++ b)).1 :=
+  (resume_outputs (Cbc.decBlock C) (fun s => Cbc.init C (Cbc.ivState C s)) iv a b rfl).1
+theorem pcbc_resume_outputs (C : Cipher) (step : Bytes → Bytes → Bytes × Bytes) (iv : Bytes) (a b : List Bytes) :
+    (foldBlocks step iv a).1 ++ (foldBlocks step (Pcbc.init C (Pcbc.ivState C (foldBlocks step iv a).2)) b).1
+      = (foldBlocks step iv (a ++ b)).1 :=
+  (resume_outputs step (fun s => Pcbc.init C (Pcbc.ivState C s)) iv a b rfl).1
+theorem cfb8_resume_outputs (C : Cipher) (step : Bytes → Bytes → Bytes × Bytes) (iv : Bytes) (a b : List Bytes) :
+    (foldBlocks step iv a).1 ++ (foldBlocks step (Cfb8.init C (Cfb8.ivState C (foldBlocks step iv a).2)) b).1
+      = (foldBlocks step iv (a ++ b)).1 :=
+  (resume_outputs step (fun s => Cfb8.init C (Cfb8.ivState C s)) iv a b rfl).1
+theorem ofb_resume_outputs (C : Cipher) (step : Bytes → Bytes → Bytes × Bytes) (iv : Bytes) (a b : List Bytes) :
+    (foldBlocks step iv a).1 ++ (foldBlocks step (Ofb.init C (Ofb.ivState C (foldBlocks step iv a).2)) b).1
+      = (foldBlocks step iv (a ++ b)).1 :=
+  (resume_outputs step (fun s => Ofb.init C (Ofb.ivState C s)) iv a b rfl).1
+
+/-- CFB (both directions): the state stays one block long, so `E(D(state)) = state`. -/
+theorem cfb_state_len (C : Cipher) (hC : C.Valid) (dec : Bool) : ∀ (a : List Bytes) (s : Bytes), s.length = C.bs →
+    AllLen C.bs a → (foldBlocks (if dec then Cfb.decBlock C else Cfb.encBlock C) s a).2.length = C.bs := by
+  intro a
+  induction a with
+  | nil => intro s hs _; simpa [foldBlocks] using hs
+  | cons x xs ih =>
+    intro s hs ha
+    have hx : x.length = C.bs := ha x (by simp)
+    simp only [foldBlocks]
+    apply ih _ _ (fun b hb => ha b (by simp [hb]))
+    cases dec
+    · simp only [Bool.false_eq_true, if_false, Cfb.encBlock]
+      exact hC.enc_len _ (by simp [hx, hs])
+    · simp only [if_true, Cfb.decBlock]
+      exact hC.enc_len _ hx
+
+theorem cfb_resume_outputs (C : Cipher) (hC : C.Valid) (dec : Bool) (iv : Bytes) (hiv : iv.length = C.bs)
+    (a b : List Bytes) (ha : AllLen C.bs a) :
+    let step := if dec then Cfb.decBlock C else Cfb.encBlock C
+    (foldBlocks step (Cfb.init C iv) a).1 ++
+      (foldBlocks step (Cfb.init C (Cfb.ivState C (foldBlocks step (Cfb.init C iv) a).2)) b).1
+      = (foldBlocks step (Cfb.init C iv) (a ++ b)).1 := by
+  intro step
+  exact (resume_outputs step (fun s => Cfb.init C (Cfb.ivState C s)) (Cfb.init C iv) a b
+    (cfb_resume C hC _ (cfb_state_len C hC dec a _ (hC.enc_len iv hiv) ha))).1
+
+/-- IGE (both directions): `x` and `y` stay one block long. -/
+theorem ige_state_len (C : Cipher) (hC : C.Valid) (dec : Bool) : ∀ (a : List Bytes) (s : Ige.St), s.y.length = C.bs →
+    s.x.length = C.bs → AllLen C.bs a →
+    (foldBlocks (if dec then Ige.decBlock C else Ige.encBlock C) s a).2.y.length = C.bs := by
+  intro a
+  induction a with
+  | nil => intro s hs _ _; simpa [foldBlocks] using hs
+  | cons b bs ih =>
+    intro s hs hx ha
+    have hb : b.length = C.bs := ha b (by simp)
+    have ha' : AllLen C.bs bs := fun c hc => ha c (by simp [hc])
+    simp only [foldBlocks]
+    cases dec
+    · simp only [Bool.false_eq_true, if_false]
+      have he : (C.enc (xorB b s.y)).length = C.bs := hC.enc_len _ (by simp [hb, hs])
+      exact ih _ (by simp [Ige.encBlock, he, hx]) (by simp [Ige.encBlock, hb]) ha'
+    · simp only [if_true]
+      have hd : (C.dec (xorB b s.x)).length = C.bs := hC.dec_len _ (by simp [hb, hx])
+      exact ih _ (by simp [Ige.decBlock, hb]) (by simp [Ige.decBlock, hd, hs]) ha'
+
+theorem ige_enc_resume_outputs (C : Cipher) (hC : C.Valid) (iv : Bytes) (hiv : iv.length = 2 * C.bs)
+    (a b : List Bytes) (ha : AllLen C.bs a) :
+    (foldBlocks (Ige.encBlock C) (Ige.init C iv) a).1 ++
+      (foldBlocks (Ige.encBlock C) (Ige.init C (Ige.ivState C (foldBlocks (Ige.encBlock C) (Ige.init C iv) a).2)) b).1
+      = (foldBlocks (Ige.encBlock C) (Ige.init C iv) (a ++ b)).1 := by
+  have hy : (Ige.init C iv).y.length = C.bs := by simp [Ige.init]; omega
+  have hx : (Ige.init C iv).x.length = C.bs := by simp [Ige.init]; omega
+  have := ige_state_len C hC false a (Ige.init C iv) hy hx ha
+  simp only [Bool.false_eq_true, if_false] at this
+  exact (resume_outputs (Ige.encBlock C) (fun s => Ige.init C (Ige.ivState C s)) (Ige.init C iv) a b
+    (ige_resume C _ this)).1
+
+/-! ### the exported value is the mode's *named* public chaining value -/
+
+/-- CBC: last ciphertext block (the IV while nothing was processed) — encryptor: last output, decryptor: last input. -/
+theorem cbc_chain_is_last_ct (C : Cipher) : ∀ (l : List Bytes) (iv : Bytes),
+    (Spec.cbcEnc C iv l).2 = (Spec.cbcEnc C iv l).1.getLastD iv ∧ (Spec.cbcDec C iv l).2 = l.getLastD iv := by
+  intro l
+  induction l with
+  | nil => intro iv; exact ⟨rfl, rfl⟩
+  | cons p ps ih =>
+    intro iv
+    obtain ⟨h1, _⟩ := ih (C.enc (xorB p iv))
+    obtain ⟨_, h2⟩ := ih p
+    simp only [Spec.cbcEnc, Spec.cbcDec, h1, h2]
+    cases ps <;> simp [Spec.cbcEnc, List.getLastD]
+
+/-- CFB: last ciphertext block. -/
+theorem cfb_chain_is_last_ct (C : Cipher) : ∀ (l : List Bytes) (iv : Bytes),
+    (Spec.cfbEnc C iv l).2 = (Spec.cfbEnc C iv l).1.getLastD iv ∧ (Spec.cfbDec C iv l).2 = l.getLastD iv := by
+  intro l
+  induction l with
+  | nil => intro iv; exact ⟨rfl, rfl⟩
+  | cons p ps ih =>
+    intro iv
+    obtain ⟨h1, _⟩ := ih (xorB p (C.enc iv))
+    obtain ⟨_, h2⟩ := ih p
+    simp only [Spec.cfbEnc, Spec.cfbDec, h1, h2]
+    cases ps <;> simp [Spec.cfbEnc, List.getLastD]
+
+/-- CFB-8: the last block-size bytes of `IV ‖ ciphertext` (so: the last `bs` ciphertext bytes once `bs` bytes were
+    processed, an IV suffix followed by the ciphertext before that). -/
+theorem cfb8_chain_is_last_bytes (C : Cipher) : ∀ (m : Bytes) (s : Bytes), 1 ≤ s.length →
+    (Spec.cfb8Enc C s m).2 = (s ++ (Spec.cfb8Enc C s m).1).drop m.length ∧
+    (Spec.cfb8Dec C s m).2 = (s ++ m).drop m.length := by
+  intro m
+  induction m with
+  | nil => intro s _; simp [Spec.cfb8Enc, Spec.cfb8Dec]
+  | cons p ps ih =>
+    intro s hs
+    match s, hs with
+    | a :: as, _ =>
+      obtain ⟨h1, _⟩ := ih ((a :: as).drop 1 ++ [p ^^^ (C.enc (a :: as)).headD 0]) (by simp)
+      obtain ⟨_, h2⟩ := ih ((a :: as).drop 1 ++ [p]) (by simp)
+      simp only [Spec.cfb8Enc, Spec.cfb8Dec, h1, h2, List.length_cons]
+      constructor <;> simp [List.drop_succ_cons]
+
+/-- OFB: the last keystream block, `E^n(IV)`; independent of the data. -/
+theorem ofb_chain_is_last_ks (C : Cipher) : ∀ (l : List Bytes) (o : Bytes),
+    (Spec.ofb C o l).2 = (Nat.repeat C.enc l.length o) := by
+  intro l
+  induction l with
+  | nil => intro o; rfl
+  | cons x xs ih =>
+    intro o
+    simp only [Spec.ofb, ih, List.length_cons]
+    clear ih
+    induction xs.length generalizing o with
+    | zero => rfl
+    | succ n ihn =>
+      show C.enc (Nat.repeat C.enc n (C.enc o)) = C.enc (C.enc (Nat.repeat C.enc n o))
+      rw [ihn]; rfl
+
+/-- PCBC: `P_n ⊕ C_n` (the IV while nothing was processed), both directions. -/
+theorem pcbc_chain_is_p_xor_c (C : Cipher) (ps : List Bytes) (p s : Bytes) :
+    (Spec.pcbcEnc C s (ps ++ [p])).2 = xorB p ((Spec.pcbcEnc C s (ps ++ [p])).1.getLastD []) ∧
+    (Spec.pcbcDec C s (ps ++ [p])).2 = xorB ((Spec.pcbcDec C s (ps ++ [p])).1.getLastD []) p := by
+  induction ps generalizing s with
+  | nil => simp [Spec.pcbcEnc, Spec.pcbcDec]
+  | cons q qs ih =>
+    obtain ⟨h1, _⟩ := ih (xorB q (C.enc (xorB q s)))
+    obtain ⟨_, h2⟩ := ih (xorB (xorB (C.dec q) s) q)
+    simp only [List.cons_append, Spec.pcbcEnc, Spec.pcbcDec, h1, h2]
+    constructor
+    · cases hq : (Spec.pcbcEnc C (xorB q (C.enc (xorB q s))) (qs ++ [p])).1 with
+      | nil =>
+        have := congrArg List.length hq
+        rw [show (Spec.pcbcEnc C (xorB q (C.enc (xorB q s))) (qs ++ [p])).1.length = (qs ++ [p]).length from by
+          generalize xorB q (C.enc (xorB q s)) = t
+          induction (qs ++ [p]) generalizing t with
+          | nil => rfl
+          | cons y ys ihy => simp [Spec.pcbcEnc, ihy]] at this
+        simp at this
+      | cons y ys => simp [List.getLastD]
+    · cases hq : (Spec.pcbcDec C (xorB (xorB (C.dec q) s) q) (qs ++ [p])).1 with
+      | nil =>
+        have := congrArg List.length hq
+        rw [show (Spec.pcbcDec C (xorB (xorB (C.dec q) s) q) (qs ++ [p])).1.length = (qs ++ [p]).length from by
+          generalize xorB (xorB (C.dec q) s) q = t
+          induction (qs ++ [p]) generalizing t with
+          | nil => rfl
+          | cons y ys ihy => simp [Spec.pcbcDec, ihy]] at this
+        simp at this
+      | cons y ys => simp [List.getLastD]
+
+/-- IGE: `(C_n, P_n)`, exported as `C_n ‖ P_n` (`C02.ige_ivState_abs`). -/
+theorem ige_chain_is_c_p (C : Cipher) (ps : List Bytes) (p : Bytes) (s : Bytes × Bytes) :
+    (Spec.igeEnc C s (ps ++ [p])).2 = ((Spec.igeEnc C s (ps ++ [p])).1.getLastD [], p) ∧
+    (Spec.igeDec C s (ps ++ [p])).2 = (p, (Spec.igeDec C s (ps ++ [p])).1.getLastD []) := by
+  induction ps generalizing s with
+  | nil => obtain ⟨a, b⟩ := s; simp [Spec.igeEnc, Spec.igeDec]
+  | cons q qs ih =>
+    obtain ⟨a, b⟩ := s
+    obtain ⟨h1, _⟩ := ih (xorB (C.enc (xorB q a)) b, q)
+    obtain ⟨_, h2⟩ := ih (q, xorB (C.dec (xorB q b)) a)
+    simp only [List.cons_append, Spec.igeEnc, Spec.igeDec, h1, h2]
+    constructor
+    · cases hq : (Spec.igeEnc C (xorB (C.enc (xorB q a)) b, q) (qs ++ [p])).1 with
+      | nil =>
+        have := congrArg List.length hq
+        rw [show (Spec.igeEnc C (xorB (C.enc (xorB q a)) b, q) (qs ++ [p])).1.length = (qs ++ [p]).length from by
+          generalize (xorB (C.enc (xorB q a)) b, q) = t
+          induction (qs ++ [p]) generalizing t with
+          | nil => rfl
+          | cons y ys ihy => obtain ⟨t1, t2⟩ := t; simp [Spec.igeEnc, ihy]] at this
+        simp at this
+      | cons y ys => simp [List.getLastD]
+    · cases hq : (Spec.igeDec C (q, xorB (C.dec (xorB q b)) a) (qs ++ [p])).1 with
+      | nil =>
+        have := congrArg List.length hq
+        rw [show (Spec.igeDec C (q, xorB (C.dec (xorB q b)) a) (qs ++ [p])).1.length = (qs ++ [p]).length from by
+          generalize (q, xorB (C.dec (xorB q b)) a) = t
+          induction (qs ++ [p]) generalizing t with
+          | nil => rfl
+          | cons y ys ihy => obtain ⟨t1, t2⟩ := t; simp [Spec.igeDec, ihy]] at this
+        simp at this
+      | cons y ys => simp [List.getLastD]
+
 end Thm.C09
